@@ -20,8 +20,9 @@ _s = {}
 
 
 def schema(ver):
+    """'1.1i': the XSD 1.1 variant whose root carries an inheritable attribute."""
     if ver not in _s:
-        _s[ver] = cm.schema_class(ver)(vdoc.XSD)
+        _s[ver] = cm.schema_class("1.1")(vdoc.XSD11) if ver == "1.1i" else cm.schema_class(ver)(vdoc.XSD)
     return _s[ver]
 
 
@@ -30,7 +31,8 @@ def judge(job):
     out = []
     s = schema(ver)
     for rec in recs:
-        xml = vdoc.render(rec["nodes"], default_ns=(len(rec["nodes"]) % 2 == 0))
+        xml = vdoc.render(rec["nodes"], default_ns=(len(rec["nodes"]) % 2 == 0),
+                          root_attrs=' lang="en"' if ver == "1.1i" else "")
         if parser == "lxml":
             import lxml.etree as LE
             root = LE.fromstring(xml.encode())
@@ -98,7 +100,7 @@ def run(ctx: Ctx):
     if not thorough:
         recs = recs[::1]
     jobs = []
-    for ver in ("1.0", "1.1"):
+    for ver in ("1.0", "1.1", "1.1i"):
         for parser in ("etree", "lxml"):
             for i in range(0, len(recs), 100):
                 jobs.append((recs[i:i + 100], ver, parser))
@@ -116,7 +118,7 @@ def run(ctx: Ctx):
     ctx.rule = ("every document of spec/Validator.tla with <= 2 items (flag / note / 0-2 sub quantities) x "
                 "every applicable single deviation (19 kinds: bad value, missing / extra / misplaced child, "
                 "missing / extra / bad attribute, stray text, at item, sub, title or root level); quick takes "
-                "every 3rd; both schema classes x ElementTree and lxml parsers; prefixed and default-namespace "
+                "every 3rd; both schema classes (and XSD 1.1 with an inheritable attribute on the root) x ElementTree and lxml parsers; prefixed and default-namespace "
                 "renderings alternate")
     ctx.assumptions += ["error paths are evaluated by an independent evaluator of the step[n] path grammar",
                         "fully loaded documents only (lazy resources are C06's business)"]
